@@ -285,6 +285,9 @@ def run(ctx):
     # one named type under one component name in several contexts vs the independent encoder
     from .. import ctxfam as _ctxfam
     _ctxfam.run(ctx, 'C03', ctx.rng, ctx.n(150, 2000), impl, ['der'])
+    # REAL vs X.690 8.5 / 11.3 worked out independently (exponent and mantissa in the fewest octets, every exponent width boundary)
+    from .. import realfam as _realfam
+    _realfam.run(ctx, ctx.rng, ctx.n(1, 10))
 
 
 def sorted_members_differs(t, v, got, want):
